@@ -19,6 +19,7 @@ import (
 	"context"
 	"fmt"
 	"os"
+	"runtime/debug"
 	"strconv"
 	"strings"
 
@@ -43,6 +44,9 @@ func translate(name string, src []byte, prefix string) (code, header []byte, sta
 	defer func() {
 		if r := recover(); r != nil {
 			status = "panic " + oneLine(fmt.Sprint(r))
+			if os.Getenv("C03_TRACE") != "" {
+				os.Stderr.Write(debug.Stack())
+			}
 		}
 	}()
 	_, code, header, err := watutil.Wat2C(name, src, wat2c.Options{Prefix: prefix})
